@@ -9,6 +9,7 @@ import (
 	"encoding/json"
 	"fmt"
 	"io"
+	"math"
 	"sort"
 	"time"
 
@@ -179,8 +180,17 @@ func (b Bundle) IsLifetimeExceeded() bool {
 	}
 
 	maxTimestamp := b.PrimaryBlock.CreationTimestamp.DtnTime().Time().Add(
-		time.Duration(b.PrimaryBlock.Lifetime) * time.Millisecond)
+		millisecondsToDuration(b.PrimaryBlock.Lifetime))
 	return time.Now().After(maxTimestamp)
+}
+
+// millisecondsToDuration converts a number of milliseconds to a Duration. A number beyond a Duration's range, about 292
+// years, results in the greatest Duration instead of an arbitrary, perhaps negative one.
+func millisecondsToDuration(ms uint64) time.Duration {
+	if ms > uint64(math.MaxInt64/int64(time.Millisecond)) {
+		return time.Duration(math.MaxInt64)
+	}
+	return time.Duration(ms) * time.Millisecond
 }
 
 // CheckValid returns an array of errors for incorrect data.
